@@ -3,6 +3,7 @@ package rules
 import (
 	"fmt"
 	"go/ast"
+	"go/token"
 	"go/types"
 	"strings"
 
@@ -415,4 +416,99 @@ func degreeGuarded(info *types.Info, fd *ast.FuncDecl, o types.Object) bool {
 		return true
 	})
 	return found
+}
+
+// RESIZEFIRST — the components of an output are not addressed before the output has been given its degree.
+//
+// `c1 := opOut.Value[1]` followed by `opOut.Resize(1, level)` indexes whatever the receiver is when it comes in: a
+// receiver of degree 0 panics (index out of range) where the documentation promises the result or an error.
+//
+// Rule: in a function that resizes an output parameter X, no index expression X.Value[k] with a constant k >= 1 occurs
+// before the first X.Resize call (source order), unless the function refuses outputs of another degree with an error
+// first.
+func scanResizeFirst(c *core.Ctx) []ob {
+	var out []ob
+	n := 0
+	c.FuncDecls(func(pk *packages.Package, file *ast.File, fd *ast.FuncDecl) {
+		rel := core.ShortPkg(pk.PkgPath)
+		if fd.Body == nil || fileIsTestSupport(c.Program, fd.Pos()) || !(c.IsFixture || strings.HasPrefix(rel, "schemes/") || strings.HasPrefix(rel, "core/") || strings.HasPrefix(rel, "circuits/")) {
+			return
+		}
+		info := pk.TypesInfo
+		fn, _ := info.Defs[fd.Name].(*types.Func)
+		if fn == nil {
+			return
+		}
+		sig := fn.Type().(*types.Signature)
+		for pi := 0; pi < sig.Params().Len(); pi++ {
+			x := sig.Params().At(pi)
+			if !isOutParamName(x.Name()) || !isMetaCarrier(x.Type()) {
+				continue
+			}
+			firstResize := token.NoPos
+			ast.Inspect(fd.Body, func(y ast.Node) bool {
+				call, ok := y.(*ast.CallExpr)
+				if !ok {
+					return true
+				}
+				if sel, ok := unparen(call.Fun).(*ast.SelectorExpr); ok && sel.Sel.Name == "Resize" {
+					base := unparen(sel.X)
+					if c2, isC := base.(*ast.CallExpr); isC {
+						if s2, isS := unparen(c2.Fun).(*ast.SelectorExpr); isS && s2.Sel.Name == "El" {
+							base = unparen(s2.X)
+						}
+					}
+					if identObj(info, base) == x && (firstResize == token.NoPos || call.Pos() < firstResize) {
+						firstResize = call.Pos()
+					}
+				}
+				return true
+			})
+			if firstResize == token.NoPos {
+				continue
+			}
+			n++
+			fkey := core.FuncKey(pk, fd)
+			key := fmt.Sprintf("RESIZEFIRST:%s#%s", fkey, x.Name())
+			var early *ast.IndexExpr
+			ast.Inspect(fd.Body, func(y ast.Node) bool {
+				ie, ok := y.(*ast.IndexExpr)
+				if !ok || early != nil || ie.Pos() > firstResize {
+					return early == nil
+				}
+				se, ok := unparen(ie.X).(*ast.SelectorExpr)
+				if !ok || se.Sel.Name != "Value" || identObj(info, se.X) != x {
+					return true
+				}
+				if tv, ok := info.Types[ie.Index]; ok && tv.Value != nil && tv.Value.String() != "0" {
+					early = ie
+				}
+				return true
+			})
+			props := append(metaProps(fkey), "C09")
+			if early == nil || degreeGuarded(info, fd, x) {
+				out = append(out, withProps(okOb("RESIZEFIRST", key, c.Rel(fd.Pos()), "no component beyond the first is addressed before the output is resized", true), props...))
+			} else {
+				out = append(out, withProps(violOb("RESIZEFIRST", key, c.Rel(early.Pos()), fmt.Sprintf("%s addresses %s before it resizes %s at %s: a receiver that comes in with a smaller degree makes the operation panic (index out of range) instead of being resized", fkey, exprString(early), x.Name(), c.Rel(firstResize))), props...))
+			}
+		}
+	})
+	c.Stats["resizefirst_fns"] = n
+	return out
+}
+
+func init() {
+	all := []string{"C04", "C05", "C06", "C09", "C11", "C12", "C13", "C20"}
+	core.Register(&core.Rule{Name: "RESIZEFIRST", Props: all,
+		Doc: "in a function that resizes an output parameter, no component out.Value[k], k >= 1, is addressed before the first Resize (unless outputs of another degree are refused with an error first)",
+		Run: func(c *core.Ctx) []ob {
+			out := scanResizeFirst(c)
+			for _, o := range control(c, "RESIZEFIRST", scanResizeFirst, "(fixEvaluator).ViewThenResize") {
+				out = append(out, withProps(o, all...))
+			}
+			for _, o := range core.Floor("RESIZEFIRST", nil, "functions resizing an output", c.Stats["resizefirst_fns"], 30) {
+				out = append(out, withProps(o, all...))
+			}
+			return out
+		}})
 }
